@@ -612,6 +612,32 @@ def r7_plurality_veto_shape(ctx):
               "PluralityVeto: a voter's veto position is the last position of their current ballot (-1 when exhausted), recomputed after every round", "", "preference_index computation changed")
 
 
+# --------------------------------------------------------------------------------------------- R8
+def r8_prerequisites(ctx):
+    """Facts the clauses above rest on, decided by the rules that own them and re-stated here:
+    F2 (tiebreak_set returns a strict order of singletons: random fallback behind the still-tied test),
+    the quota formulas (at most m candidates can reach the Droop quota), and the agreement of the two
+    STV constructions in Alaska (a diverging replay raises IndexError / reports other winners)."""
+    from rules import c10, c02, c13
+    picks = [(c10.r4_fallback, lambda o: True), (c10.r5_groups_obey, lambda o: True), (c02.r1_quota, lambda o: True),
+             (c13.r3_alaska, lambda o: "get_profile" in o.construct or "stage 1" in o.construct or "STV" in o.construct)]
+    n = 0
+    for fn, keep in picks:
+        sub = type(ctx)(ctx.prog, ctx.prop, ctx.tier)
+        try:
+            fn(sub)
+        except AnalysisError as e:
+            ctx.vanished(str(e))
+            continue
+        for o in sub.obs:
+            if keep(o):
+                o.rule = "C01.R8"
+                ctx.obs.append(o)
+                n += 1
+    if n < 10:
+        ctx.vanished(f"prerequisite obligations: only {n}")
+
+
 RULES = [
     ("C01.R1", r1_definite_assignment, 60, "no unbound local on a feasible path of election code (predicate-refined definite assignment)"),
     ("C01.R2", r2_progress, 12, "every recording step path appends a state; single-round rules exactly one; only _run_election records"),
@@ -619,6 +645,7 @@ RULES = [
     ("C01.R4", r4_raise_census, 40, "every explicit raise in election code is ValueError/TypeError/guarded IndexError/documented"),
     ("C01.R5", r5_boundary_tie, 4, "unbroken boundary tie => ValueError; loop stops at the first index reaching m; resolution returned"),
     ("C01.R6", r6_bookkeeping, 12, "candidates removed from the profile = candidates recorded as elected/eliminated"),
+    ("C01.R8", r8_prerequisites, 10, "prerequisites: F2 (strict resolutions), selector split, quota formulas, Alaska's two STV constructions agree"),
     ("C01.R7", r7_plurality_veto_shape, 10, "PluralityVeto veto mechanics: final-round test, one point off the last place, stop at <= 0, rotation, bookkeeping"),
 ]
 
@@ -671,6 +698,8 @@ FAULTS = [
     ("stv candidate tuple keeps the elected", [(STV, "        remaining_cands = set(profile.candidates).difference(\n            [c for s in elected for c in s]\n        )\n        new_profile = PreferenceProfile(\n            ballots=cleaned_ballots, candidates=tuple(remaining_cands)\n        )\n        return (tuple(elected), new_profile)",
                                                  "        remaining_cands = set(profile.candidates).difference(\n            [c for s in elected[1:] for c in s]\n        )\n        new_profile = PreferenceProfile(\n            ballots=cleaned_ballots, candidates=tuple(remaining_cands)\n        )\n        return (tuple(elected), new_profile)")], "C01.R6"),
     ("scores only over cast candidates", [(UT, "    scores = {c: Fraction(0) for c in profile.candidates}\n    for ballot in profile.ballots:\n        current_ind = 0", "    scores = {c: Fraction(0) for c in profile.candidates_cast}\n    for ballot in profile.ballots:\n        current_ind = 0")], "C01.R6"),
+    ("fallback only when the first group is tied", [(UT, "    if any(len(s) > 1 for s in new_ranking):\n        print(", "    if len(new_ranking[0]) > 1:\n        print(")], "C01.R8"),
+    ("droop rounds up", [(STV, "                return int(total_ballot_wt / (self.m + 1) + 1)  # takes floor", "                return -int(-total_ballot_wt // (self.m + 1))")], "C01.R8"),
     ("PV final round at m+1", [(PV, "        if remaining_count == self.m:", "        if remaining_count <= self.m + 1:")], "C01.R7"),
     ("PV veto takes two points", [(PV, "                    new_scores[least_preferred] -= Fraction(1)", "                    new_scores[least_preferred] -= Fraction(2)")], "C01.R7"),
     ("PV vetoes the favourite", [(PV, "                    least_preferred = list(tiebroken_ranking[-1])[0]", "                    least_preferred = list(tiebroken_ranking[0])[0]")], "C01.R7"),
